@@ -27,9 +27,11 @@ import (
 
 	networking "istio.io/api/networking/v1alpha3"
 	"istio.io/istio/pilot/pkg/features"
+	"istio.io/istio/pilot/pkg/model"
 	pxds "istio.io/istio/pilot/pkg/xds"
 	v3 "istio.io/istio/pilot/pkg/xds/v3"
 	txds "istio.io/istio/pilot/test/xds"
+	"istio.io/istio/pkg/cluster"
 	"istio.io/istio/pkg/config"
 	"istio.io/istio/pkg/config/constants"
 	"istio.io/istio/pkg/config/schema/gvk"
@@ -63,8 +65,11 @@ var (
 		{"ns2", "a", [6]string{"", "", "", "S:Kubernetes:ns2:a:tls.crt", "S:Kubernetes:ns2:a:tls.key", "S:Kubernetes:ns2:a:ca.crt"}},
 		{"ns1", "b", [6]string{"", "", "S:Kubernetes:ns1:b:cacert", "", "", ""}},
 		{"istio-system", "a", [6]string{"S:Kubernetes:istio-system:a:cert", "S:Kubernetes:istio-system:a:key", "", "", "", ""}},
+		{"ns1", "c", [6]string{"S:Kubernetes:ns1:c:cert", "S:Kubernetes:ns1:c:key", "", "", "", ""}},
 	}
-	streamAllow = [][2]string{{"sa1", "ns1"}, {"sa1", "ns2"}, {"sa2", "ns2"}, {"sa1", "istio-system"}} // (sa, ns)
+	// ClusterAliases of the discovery server: the client-claimed CLUSTER_ID is rewritten before anything else
+	streamAliases = [][2]string{{"alias-k", "Kubernetes"}, {"alias-x", "nowhere"}}
+	streamAllow   = [][2]string{{"sa1", "ns1"}, {"sa1", "ns2"}, {"sa2", "ns2"}, {"sa1", "istio-system"}} // (sa, ns)
 )
 
 // Gateways and ReferenceGrants of the stream world: mergeGateways -> proxy.MergedGateway -> SDS filter run as one
@@ -72,13 +77,16 @@ var (
 type worldServer struct{ cred, mode string }
 type worldGateway struct {
 	ns, saAnn string
+	selector  [][2]string // nil: no selector (applies to every gateway proxy)
 	servers   []worldServer
 }
 
 var (
 	streamGateways = []worldGateway{
-		{"ns1", "", []worldServer{{"kubernetes-gateway://ns1/a", "SIMPLE"}, {"kubernetes-gateway://ns2/a", "MUTUAL"}, {"kubernetes-gateway://istio-system/a", "SIMPLE"}}},
-		{"ns2", "sa1", []worldServer{{"kubernetes-gateway://ns2/a", "SIMPLE"}}},
+		{"ns1", "", nil, []worldServer{{"kubernetes-gateway://ns1/a", "SIMPLE"}, {"kubernetes-gateway://ns2/a", "MUTUAL"}, {"kubernetes-gateway://istio-system/a", "SIMPLE"}}},
+		{"ns2", "sa1", nil, []worldServer{{"kubernetes-gateway://ns2/a", "SIMPLE"}}},
+		{"ns1", "", [][2]string{{"app", "edge"}}, []worldServer{{"kubernetes-gateway://ns1/c", "SIMPLE"}}},
+		{"ns1", "", [][2]string{{"app", "edge"}, {"tier", "x"}}, []worldServer{{"kubernetes-gateway://ns1/b", "SIMPLE"}}},
 	}
 	streamGrants = []rgSpec{{srcNs: "ns2", from: "G", fromNs: "ns1", to: "S", name: "*"}, {srcNs: "istio-system", from: "H", fromNs: "ns1", to: "S", name: "*"}}
 )
@@ -100,6 +108,12 @@ func streamConfigs() []config.Config {
 		if g.saAnn != "" {
 			ann[constants.InternalServiceAccount] = g.saAnn
 		}
+		if g.selector != nil {
+			gw.Selector = map[string]string{}
+			for _, kv := range g.selector {
+				gw.Selector[kv[0]] = kv[1]
+			}
+		}
 		out = append(out, config.Config{
 			Meta: config.Meta{GroupVersionKind: gvk.Gateway, Name: "gw" + strconv.Itoa(i), Namespace: g.ns, Annotations: ann},
 			Spec: gw,
@@ -109,8 +123,19 @@ func streamConfigs() []config.Config {
 }
 
 func writeStreamWorld(out *wire.Out) {
+	for _, a := range streamAliases {
+		out.Line("alias", a[0], a[1])
+	}
 	for _, g := range streamGateways {
-		out.Line("gw", g.ns, wire.Enc(g.saAnn), "~", "~")
+		if g.selector == nil {
+			out.Line("gw", g.ns, wire.Enc(g.saAnn), "~", "~")
+		} else {
+			var kv []string
+			for _, x := range g.selector {
+				kv = append(kv, x[0]+"="+x[1])
+			}
+			out.Line("gw", g.ns, wire.Enc(g.saAnn), "~", "~", wire.EncList(kv))
+		}
 		for _, sv := range g.servers {
 			out.Line("srv", "1", "-", wire.Enc(sv.cred), sv.mode, "~")
 		}
@@ -193,6 +218,10 @@ func (s *streamSUT) server() *txds.FakeDiscoveryServer {
 			installSAR(c.Kube().(*fake.Clientset), &sarPolicy{allow: allowed})
 		},
 	})
+	s.srv.Discovery.ClusterAliases = map[cluster.ID]cluster.ID{}
+	for _, a := range streamAliases {
+		s.srv.Discovery.ClusterAliases[cluster.ID(a[0])] = cluster.ID(a[1])
+	}
 	quiet.Silence()
 	return s.srv
 }
@@ -204,7 +233,9 @@ type observed struct {
 	vid     *spiffe.Identity
 	cfgNs   string
 	seen    bool
-	secrets []secretView
+	secrets []secretView   // everything sent on the stream
+	segs    [][]secretView // per phase: answer to request 1, to request 2, to the push
+	vidLost bool           // VerifiedIdentity changed while the stream was alive
 }
 
 type baseStream struct {
@@ -212,7 +243,76 @@ type baseStream struct {
 	srv    *pxds.DiscoveryServer
 	obs    *observed
 	calls  int
-	wantID string // proxy id (3rd part of the node id) of this op; ids are unique per op
+	wantID string   // proxy id (3rd part of the node id) of this op; ids are unique per op
+	plan   []string // what the client does after the first request: "req2", "push"
+	step   int
+	fake   *txds.FakeDiscoveryServer
+}
+
+// Sentinel requests: cheap registered types that never fail; one distinct type per phase.
+var sentinelTypes = []string{v3.ExtensionConfigurationType, v3.NameTableType, v3.ProxyConfigType}
+
+func sentinelNames(n int) []string {
+	if sentinelTypes[n] == v3.ExtensionConfigurationType {
+		return []string{"verif-c11-none"} // not a wildcard type: an empty name list would be an unsubscribe
+	}
+	return nil
+}
+
+func (b *baseStream) proxy() *model.Proxy {
+	for _, c := range b.srv.AllClients() {
+		if p := c.Proxy(); p != nil && p.ID == b.wantID {
+			return p
+		}
+	}
+	return nil
+}
+
+// waitProcessed blocks until the server has finished every request sent before the sentinel: requests are
+// handled in order on one goroutine, and handling the sentinel records a watch for its (unknown) type.
+func (b *baseStream) waitProcessed(n int) {
+	for i := 0; i < 20000; i++ {
+		if p := b.proxy(); p == nil || p.GetWatchedResource(sentinelTypes[n]) != nil {
+			return
+		}
+		time.Sleep(time.Millisecond)
+	}
+}
+
+// closeSegment ends a phase: what was sent since the last call is the answer of that phase.
+func (b *baseStream) closeSegment() {
+	b.obs.mu.Lock()
+	defer b.obs.mu.Unlock()
+	n := 0
+	for _, sg := range b.obs.segs {
+		n += len(sg)
+	}
+	b.obs.segs = append(b.obs.segs, append([]secretView(nil), b.obs.secrets[n:]...))
+	if p := b.proxy(); p != nil {
+		same := (p.VerifiedIdentity == nil) == (b.obs.vid == nil)
+		if same && p.VerifiedIdentity != nil {
+			same = *p.VerifiedIdentity == *b.obs.vid
+		}
+		if !same {
+			b.obs.vidLost = true
+		}
+	}
+}
+
+// triggerPush makes the server run a full push (new PushContext) and waits until this connection started it.
+func (b *baseStream) triggerPush() {
+	p := b.proxy()
+	if p == nil {
+		return
+	}
+	before := p.LastPushContext
+	b.srv.ConfigUpdate(&model.PushRequest{Forced: true, Reason: model.NewReasonStats(model.GlobalUpdate)})
+	for i := 0; i < 20000; i++ {
+		if q := b.proxy(); q == nil || q.LastPushContext != before {
+			return
+		}
+		time.Sleep(time.Millisecond)
+	}
 }
 
 func (b *baseStream) SetHeader(metadata.MD) error  { return nil }
@@ -253,6 +353,9 @@ func (b *baseStream) record(resources []*anypb.Any) {
 			v.kind, v.hasKey = "K", true
 			v.cert = string(tc.GetCertificateChain().GetInlineBytes())
 			v.key = string(tc.GetPrivateKey().GetInlineBytes())
+			if tc.GetPrivateKeyProvider() != nil {
+				v.kind = "P"
+			}
 		} else {
 			v.kind = "C"
 			v.cert = string(sec.GetValidationContext().GetTrustedCa().GetInlineBytes())
@@ -261,40 +364,84 @@ func (b *baseStream) record(resources []*anypb.Any) {
 	}
 }
 
+// The client script, identical for SotW and delta: request 1; [sentinel, wait] -> phase 1 closed; then for each
+// planned step: req2 -> second SDS request (then sentinel, wait) / push -> full push (then sentinel, wait); EOF.
+// next returns what Recv must do: "first", "sentinel:<n>", "req2", or "eof".
+func (b *baseStream) next() string {
+	b.calls++
+	if b.calls == 1 {
+		return "first"
+	}
+	if b.calls == 2 {
+		b.observeConnection()
+		return "sentinel:0"
+	}
+	// calls >= 3: the previous thing sent was a sentinel (even calls send sentinels) or a planned action
+	if b.calls%2 == 1 {
+		b.waitProcessed((b.calls - 3) / 2)
+		b.closeSegment()
+		if b.step >= len(b.plan) {
+			return "eof"
+		}
+		act := b.plan[b.step]
+		b.step++
+		if act == "push" {
+			b.triggerPush()
+			b.calls++ // the push needs no message of its own: go straight to its sentinel
+			return "sentinel:" + strconv.Itoa((b.calls-2)/2)
+		}
+		return act
+	}
+	return "sentinel:" + strconv.Itoa((b.calls-2)/2)
+}
+
 type sotwConn struct {
 	baseStream
-	first *discovery.DiscoveryRequest
+	first, second *discovery.DiscoveryRequest
 }
 
 func (s *sotwConn) Recv() (*discovery.DiscoveryRequest, error) {
-	s.calls++
-	if s.calls == 1 {
+	switch act := s.next(); {
+	case act == "first":
 		return s.first, nil
+	case act == "req2":
+		return s.second, nil
+	case strings.HasPrefix(act, "sentinel:"):
+		n, _ := strconv.Atoi(act[9:])
+		return &discovery.DiscoveryRequest{TypeUrl: sentinelTypes[n], ResourceNames: sentinelNames(n)}, nil
 	}
-	s.observeConnection()
 	return nil, io.EOF
 }
 
 func (s *sotwConn) Send(r *discovery.DiscoveryResponse) error {
-	s.record(r.Resources)
+	if r.TypeUrl == v3.SecretType {
+		s.record(r.Resources)
+	}
 	return nil
 }
 
 type deltaConn struct {
 	baseStream
-	first *discovery.DeltaDiscoveryRequest
+	first, second *discovery.DeltaDiscoveryRequest
 }
 
 func (s *deltaConn) Recv() (*discovery.DeltaDiscoveryRequest, error) {
-	s.calls++
-	if s.calls == 1 {
+	switch act := s.next(); {
+	case act == "first":
 		return s.first, nil
+	case act == "req2":
+		return s.second, nil
+	case strings.HasPrefix(act, "sentinel:"):
+		n, _ := strconv.Atoi(act[9:])
+		return &discovery.DeltaDiscoveryRequest{TypeUrl: sentinelTypes[n], ResourceNamesSubscribe: sentinelNames(n)}, nil
 	}
-	s.observeConnection()
 	return nil, io.EOF
 }
 
 func (s *deltaConn) Send(r *discovery.DeltaDiscoveryResponse) error {
+	if r.TypeUrl != v3.SecretType {
+		return nil
+	}
 	var l []*anypb.Any
 	for _, x := range r.Resources {
 		l = append(l, x.Resource)
@@ -313,6 +460,11 @@ type streamOp struct {
 	nodeID           string
 	metaNs, metaSA   string
 	names            []string
+	clusterID        string   // CLUSTER_ID node metadata (client-claimed; may be an alias)
+	labels           []string // LABELS node metadata, k=v
+	hasNames2        bool
+	names2           []string // second SDS request on the same stream
+	push             bool     // a full push while the stream is alive
 	authn            []security.Authenticator
 	presentedIDs     []string // identities of every authenticator that answers without error
 	anyAuthenticates bool
@@ -320,8 +472,12 @@ type streamOp struct {
 
 func decStream(f []string) streamOp {
 	o := streamOp{delta: f[1] == "delta", xdsAuth: f[2] == "1", peer: f[3], plaintextOK: f[4] == "1", flag: f[5] == "1",
-		nodeID: wire.Dec(f[6]), metaNs: wire.Dec(f[8]), metaSA: wire.Dec(f[9]), names: wire.DecList(f[10])}
-	for _, r := range f[11:] {
+		nodeID: wire.Dec(f[6]), metaNs: wire.Dec(f[8]), metaSA: wire.Dec(f[9]), names: wire.DecList(f[10]),
+		clusterID: wire.Dec(f[11]), labels: wire.DecList(f[12]), push: f[14] == "1"}
+	if f[13] != "none" {
+		o.hasNames2, o.names2 = true, wire.DecList(f[13])
+	}
+	for _, r := range f[15:] {
 		a := decAuthn(r)
 		o.authn = append(o.authn, a)
 		if a.err == nil && !a.nilCaller && len(a.ids) > 0 {
@@ -347,7 +503,18 @@ func (s *streamSUT) run(o streamOp) streamResult {
 		features.XDSAuth, security.AuthPlaintext, features.EnableXDSIdentityCheck = oldA, oldP, oldF
 		srv.Discovery.Authenticators = oldAuthn
 	}()
-	fields := map[string]any{"CLUSTER_ID": streamCluster}
+	fields := map[string]any{}
+	if o.clusterID != "" {
+		fields["CLUSTER_ID"] = o.clusterID
+	}
+	if len(o.labels) > 0 {
+		lm := map[string]any{}
+		for _, kv := range o.labels {
+			k, v, _ := strings.Cut(kv, "=")
+			lm[k] = v
+		}
+		fields["LABELS"] = lm
+	}
 	if o.metaNs != "" {
 		fields["NAMESPACE"] = o.metaNs
 	}
@@ -364,6 +531,12 @@ func (s *streamSUT) run(o streamOp) streamResult {
 	if parts := strings.Split(o.nodeID, "~"); len(parts) >= 3 {
 		base.wantID = parts[2]
 	}
+	if o.hasNames2 {
+		base.plan = append(base.plan, "req2")
+	}
+	if o.push {
+		base.plan = append(base.plan, "push")
+	}
 	done := make(chan error, 1)
 	go func() {
 		defer func() {
@@ -372,13 +545,16 @@ func (s *streamSUT) run(o streamOp) streamResult {
 			}
 		}()
 		if o.delta {
-			done <- srv.Discovery.StreamDeltas(&deltaConn{baseStream: base, first: &discovery.DeltaDiscoveryRequest{
-				Node: node, TypeUrl: v3.SecretType, ResourceNamesSubscribe: o.names,
-			}})
+			done <- srv.Discovery.StreamDeltas(&deltaConn{baseStream: base,
+				first:  &discovery.DeltaDiscoveryRequest{Node: node, TypeUrl: v3.SecretType, ResourceNamesSubscribe: o.names},
+				second: &discovery.DeltaDiscoveryRequest{TypeUrl: v3.SecretType, ResourceNamesSubscribe: o.names2},
+			})
 		} else {
-			done <- srv.Discovery.Stream(&sotwConn{baseStream: base, first: &discovery.DiscoveryRequest{
-				Node: node, TypeUrl: v3.SecretType, ResourceNames: o.names,
-			}})
+			done <- srv.Discovery.Stream(&sotwConn{baseStream: base,
+				first: &discovery.DiscoveryRequest{Node: node, TypeUrl: v3.SecretType, ResourceNames: o.names},
+				// an empty nonce makes the server treat it as a fresh subscription of exactly these names
+				second: &discovery.DiscoveryRequest{TypeUrl: v3.SecretType, ResourceNames: o.names2},
+			})
 		}
 	}()
 	var serr error
@@ -414,7 +590,7 @@ func (s *streamSUT) run(o streamOp) streamResult {
 
 func (s *streamSUT) apply(f []string) string {
 	switch f[0] {
-	case "case", "cluster", "secret", "allow", "start", "gw", "srv", "rgrant":
+	case "case", "cluster", "secret", "allow", "start", "gw", "srv", "rgrant", "alias":
 		return "ok"
 	case "stream":
 		r := s.run(decStream(f))
@@ -426,7 +602,14 @@ func (s *streamSUT) apply(f []string) string {
 		if !r.obs.seen {
 			return "accepted-unobserved"
 		}
-		return "accepted " + showID(r.obs.vid) + " cfg=" + wire.Enc(r.obs.cfgNs) + " " + showViews(r.obs.secrets)
+		out := "accepted " + showID(r.obs.vid) + " cfg=" + wire.Enc(r.obs.cfgNs)
+		for _, sg := range r.obs.segs {
+			out += " " + showViews(sg)
+		}
+		if r.obs.vidLost {
+			out += " identity-changed"
+		}
+		return out
 	}
 	return "bad-op"
 }
@@ -440,7 +623,8 @@ func genStream(seed uint64, n int, outp string) {
 	nameU := []string{"kubernetes://a", "kubernetes://ns1/a", "kubernetes://ns2/a", "kubernetes://istio-system/a", "kubernetes://b-cacert",
 		"kubernetes://a-cacert", "kubernetes://ns1/b-cacert", "kubernetes-gateway://ns1/a", "invalid://x", "bogus", "kubernetes://ns2/a-cacert",
 		"kubernetes-gateway://ns1/a", "kubernetes-gateway://ns2/a", "kubernetes-gateway://ns2/a-cacert", "kubernetes-gateway://istio-system/a",
-		"kubernetes-gateway://ns2/a", "kubernetes-gateway://ns1/a/x"}
+		"kubernetes-gateway://ns2/a", "kubernetes-gateway://ns1/a/x", "kubernetes-gateway://ns1/c", "kubernetes-gateway://ns1/c", "kubernetes-gateway://ns1/b",
+		"kubernetes://c"}
 	for c := 0; c < n; c++ {
 		r := root.Fork()
 		out.Line("case", strconv.Itoa(c), "stream")
@@ -473,15 +657,25 @@ func genStream(seed uint64, n int, outp string) {
 			if r.Chance(1, 25) {
 				parts = parts[:3]
 			}
+			names1 := dedup(append(wire.Subset(r, nameU, 1, 3), "kubernetes://a"))
+			names2 := "none"
+			if r.Chance(1, 2) {
+				// a second request on the live stream; it always asks for at least one name not asked before, so that both
+				// protocols must answer it
+				n2 := append(wire.Subset(r, nameU, 1, 3), "kubernetes://fresh-"+strconv.Itoa(c)+"-"+strconv.Itoa(i))
+				names2 = wire.EncList(dedup(n2))
+			}
+			cid := wire.Pick(r, []string{streamCluster, streamCluster, streamCluster, streamCluster, "alias-k", "alias-k", "alias-x", "other", ""})
+			labels := wire.Pick(r, []string{"-", "-", "app=edge", "app=edge", "app=edge,tier=x", "app=other", "tier=x", "app=edge,tier=y"})
 			toks := []string{"stream", wire.Pick(r, []string{"sotw", "delta"}), wire.B(r.Chance(11, 12)),
 				wire.Pick(r, []string{"tls", "tls", "tls", "tls", "tls", "tls", "tls", "plain", "plain", "none"}), wire.B(r.Chance(1, 8)), wire.B(r.Chance(11, 12)),
 				wire.Enc(strings.Join(parts, "~")), wire.B(ip.ok), wire.Enc(metaNs), wire.Enc(metaSA),
-				wire.EncList(dedup(append(wire.Subset(r, nameU, 1, 3), "kubernetes://a")))}
+				wire.EncList(names1), wire.Enc(cid), labels, names2, wire.B(r.Chance(1, 2))}
 			for j, m := 0, 1+r.Intn(3); j < m; j++ {
 				toks = append(toks, genAuthnResult(r, eff, metaSA))
 			}
 			if r.Chance(1, 15) {
-				toks = toks[:11] // no authenticator configured
+				toks = toks[:15] // no authenticator configured
 			}
 			out.Line(toks...)
 		}
@@ -552,6 +746,19 @@ func (s *streamSUT) oracleStream(f []string) string {
 	if !authenticated && v != nil {
 		return "verified-identity-on-unauthenticated-stream"
 	}
+	if r.obs.vidLost {
+		return "verified-identity-changed-on-live-stream"
+	}
+	// the cluster whose RBAC and secrets apply is the claimed CLUSTER_ID after alias resolution; only "Kubernetes" exists
+	effCluster := o.clusterID
+	for _, a := range streamAliases {
+		if a[0] == o.clusterID {
+			effCluster = a[1]
+		}
+	}
+	if effCluster != streamCluster && len(r.obs.secrets) > 0 {
+		return "secret-released-for-unknown-cluster " + wire.Enc(o.clusterID)
+	}
 	for _, sv := range r.obs.secrets {
 		if v == nil {
 			return "secret-sent-to-unverified-stream " + wire.Enc(sv.name)
@@ -578,6 +785,20 @@ func (s *streamSUT) oracleStream(f []string) string {
 			ok := false
 			for _, g := range streamGateways {
 				if g.ns != v.Namespace || (g.saAnn != "" && g.saAnn != v.ServiceAccount) || !strings.HasPrefix(o.nodeID, "router~") {
+					continue
+				}
+				// the Gateway must be attached to this proxy: every selector label is one of the proxy's labels
+				attached := true
+				for _, kv := range g.selector {
+					found := false
+					for _, l := range o.labels {
+						if l == kv[0]+"="+kv[1] {
+							found = true
+						}
+					}
+					attached = attached && found
+				}
+				if !attached {
 					continue
 				}
 				for _, ws := range g.servers {
